@@ -96,7 +96,7 @@ theorem GoneInv.closed : Closed (And2 Wf LifeInv) GoneInv where
   pkt := fun s L prio c now _ idx b _ _ h _ _ _ _ _ =>
     h.step (s' := pktStep s prio c.key now idx b) [_] rfl
       (gm_updF c.key tickInfo (fun x => ⟨rfl, rfl, (tickInfo_fields x).2.1, rfl⟩)) (fun _ hin => hin)
-  done := fun s L prio c now f0 e0 hb h _ hf0 _ _ _ => by
+  done := fun s L prio c now f0 e0 hb h _ hf0 _ => by
     intro t f' hf' hc hnf
     rw [transferDoneFile_objs, getF_updF s.objs c.key t (fun f => transferDoneInfo f now) (fun _ => rfl)] at hf'
     rw [transferDoneFile_log]
